@@ -5,6 +5,8 @@ V = os.path.dirname(os.path.dirname(os.path.abspath(__file__)))
 rows = []
 for d in sorted(glob.glob(os.path.join(V, "seeded", "*"))):
     sid = os.path.basename(d)
+    if not os.path.exists(os.path.join(d, "patch.diff")):
+        continue
     am, cf = {}, {}
     try:
         am = json.load(open(os.path.join(d, "agent_meta.json")))
@@ -24,7 +26,7 @@ for d in sorted(glob.glob(os.path.join(V, "seeded", "*"))):
     if detected:
         m = re.search(r"signature: (.*)$", detected[-1])
         sig = m.group(1) if m else ""
-    confirmed = cf.get("demo_rc_without_patch") == 0 and cf.get("demo_rc_with_patch") not in (0, -1, None) and cf.get("suite_pass_fail_with_patch") == "234 0"
+    confirmed = cf.get("demo_rc_without_patch") == 0 and cf.get("demo_rc_with_patch") not in (0, -1, None) and cf.get("suite_pass_fail_with_patch") in ("234 0", "235 0")
     meta = {
         "id": sid,
         "property": prop,
